@@ -88,7 +88,7 @@ CLAIMED = {
              "tab/newline/CR/;/=/,/&; split_with D (reconstruct m D) = Ok m for ALL mappings of the property (word-like unique "
              "keys, non-empty lists of non-empty unicode strings) and all 24 GFF3-style dialects, and for all 12 standard GTF "
              "dialects on values free of ; \" , and control characters (C08_roundtrip_gtf); the supplied-dialect parser is "
-             "total. The nine-column framing of the printed line and totality of the inference "
+             "total; the printed Feature is one line with exactly 8+|extra| tabs (C08_single_line). The nine-column framing of the printed line and totality of the inference "
              "path against the real parser are decided by the correspondence (6k mappings x 48 dialects, every string up to "
              "length 6 over the structural alphabet screened through both parser paths).",
         note="Trusted: Coq kernel + vm_compute; Model/Parser.v (hand model of _split_keyvals/_reconstruct/Feature.__str__) and "
